@@ -243,9 +243,18 @@ Definition more_failed (c : ucase) : bool :=
     earlier uploads as before and this one at most once; the plain listing
     limited to one row lists this upload; upload:<id> returns exactly [exp] and
     lists exactly this upload with all its records; upload:<id> narrowed by
-    "has a label upload-part / upload-time / name" (every stored record has
-    them) returns exactly [exp] too *)
-Definition more_succeeded (c : ucase) (id : bytes) (n : N) (exp : list (bytes * bytes)) : bool :=
+    "has a non-empty label upload-part / upload-time / name" returns exactly
+    the records of the upload that carry that label ([with_label]) *)
+(** the records of upload [id] that carry a non-empty value for label [k] (as
+    a file/server label or as a name label): what "upload:<id> k>" must return.
+    Every record has upload-part and upload-time (permanent server labels); a
+    record whose benchmark name is empty has no non-empty [name] label. *)
+Definition with_label (id k : bytes) (res : list result) : list (bytes * bytes) :=
+  map (fun r => (id, r_content r))
+      (filter (fun r => negb (is_nilb (lget k (r_labels r))) || negb (is_nilb (lget k (r_namelabels r)))) res).
+Definition kind5_keys : list bytes := [bs "upload-part"; bs "upload-time"; bs "name"].
+
+Definition more_succeeded (c : ucase) (id : bytes) (n : N) (exp : list (bytes * bytes)) (res : list result) : bool :=
   let b := ob_more (uc_before c) in let a := ob_more (uc_after c) in
   let mine (r : bytes * bytes) := beq (fst r) id in
   forallb (fun m => match find_more (snd (fst m)) a with Some _ => true | None => false end) b
@@ -254,10 +263,12 @@ Definition more_succeeded (c : ucase) (id : bytes) (n : N) (exp : list (bytes * 
   && has_more 5 (bs "S:upload:" ++ id ++ bs " upload-part>") a
   && forallb (fun m : more_t =>
        let '(k, name, rows) := m in
-       (* kind 5: upload:<id> together with "has the label k", for labels EVERY stored record
-          carries (the server's upload-part / upload-time, the benchmark's name): exactly [exp] *)
+       (* kind 5: upload:<id> together with "has a non-empty label k" (the server's upload-part /
+          upload-time, the benchmark's name): exactly the records of the upload that carry it *)
        if (k =? 5)%Z then
-         if has_prefix name (bs "S:upload:" ++ id ++ bs " ") then mset_eqb pair_eqb rows exp
+         if has_prefix name (bs "S:upload:" ++ id ++ bs " ")
+         then existsb (fun key => beq name (bs "S:upload:" ++ id ++ bs " " ++ key ++ bs ">")
+                                  && mset_eqb pair_eqb rows (with_label id key res)) kind5_keys
          else match rows with [] => true | _ => false end
        else if (k =? 2)%Z then
          if beq name (bs "S:upload:" ++ id) then mset_eqb pair_eqb rows exp
@@ -334,7 +345,7 @@ Definition prop_u_gen (relax : bool) (c : ucase) : bool :=
        && match filter (fun e => beq (fst e) nid) (ob_list a) with
           | [(_, n)] => negb (n =? 0)%N
                         && mset_eqb idn_eqb (filter (fun e => negb (beq (fst e) nid)) (ob_list a)) (ob_list b)
-                        && more_succeeded c nid n exp
+                        && more_succeeded c nid n exp (all_results nid user tm 0 items)
           | _ => false
           end
        && negb (existsb (beq nid) (uc_used0 c)) && existsb (beq nid) (uc_used1 c)
